@@ -55,6 +55,7 @@ func RunC12(st *simcore.Stream, tier, leg string, logOn bool, res *simcore.Resul
 	var builtTasks []string
 	var afterCloseActivity map[string]int
 	watchFrom := -1
+	closing, closingSince := 0, -1 // Close calls that have not returned
 
 	w.Sim.OnRelease = func(id, site string) {
 		if watchFrom >= 0 && (strings.HasPrefix(site, "p/") || strings.HasPrefix(site, "s/") || strings.HasPrefix(site, "p2p")) {
@@ -164,7 +165,10 @@ func RunC12(st *simcore.Stream, tier, leg string, logOn bool, res *simcore.Resul
 					zsimrt.Yield("harness/close-wait")
 				}
 				res.Fault("close")
+				closing++
+				closingSince = w.step()
 				vep.Close()
+				closing--
 				if closeRet < 0 {
 					closeRet = w.step()
 					wantSnap = true
@@ -172,7 +176,10 @@ func RunC12(st *simcore.Stream, tier, leg string, logOn bool, res *simcore.Resul
 				zsimrt.Yield("harness/after-close")
 				if twice {
 					res.Fault("close-again")
+					closing++
+					closingSince = w.step()
 					vep.Close()
+					closing--
 				}
 			})
 		}
@@ -217,7 +224,10 @@ func RunC12(st *simcore.Stream, tier, leg string, logOn bool, res *simcore.Resul
 		// ---- close everything and look for goroutines that were not released ----
 		ocancel()
 		for _, ep := range w.Eps {
+			closing++
+			closingSince = w.step()
 			ep.Close()
+			closing--
 		}
 		w.WaitQuiet()
 		w.Sim.ClockWeight = 0
@@ -244,6 +254,18 @@ func RunC12(st *simcore.Stream, tier, leg string, logOn bool, res *simcore.Resul
 		return
 	}
 	if !w.Finished {
+		res.Checks++
+		if closing > 0 {
+			// the run ended at the simulated-time cap (hours) with a Close call still in progress
+			var stuck []string
+			for _, ti := range w.Sim.Tasks() {
+				if !ti.Done && (ti.Blocked || ti.Parked) && !strings.HasPrefix(ti.Site, "harness/") {
+					stuck = append(stuck, ti.Site)
+				}
+			}
+			sort.Strings(stuck)
+			res.Violate(res.Steps, "close-never-returns", "Close (called at step %d) had not returned when the run ended after %v of simulated time with nothing left to run; tasks are stuck at %v", closingSince, w.Sim.Now(), head(uniq(stuck), 8)).With("stack", spec).With("sites", head(uniq(stuck), 8))
+		}
 		return
 	}
 	if !strings.Contains(spec, "mux") {
@@ -315,4 +337,14 @@ func keysOf2(m map[string]bool) []string {
 	}
 	sort.Strings(ks)
 	return ks
+}
+
+func uniq(xs []string) []string {
+	var out []string
+	for i, x := range xs {
+		if i == 0 || x != xs[i-1] {
+			out = append(out, x)
+		}
+	}
+	return out
 }
